@@ -103,6 +103,52 @@ def model_matrix(ctx, thorough):
     return bad
 
 
+REOPEN = """SPECIFICATION Spec
+CONSTANTS MaxSess = %d
+ QueueFlush = "%s"
+ CapsReset = %s
+ DelimReset = "%s"
+ IdReset = %s
+ StoreReset = %s
+ PrivReset = %s
+INVARIANTS TypeOK Clean OneLoop
+CHECK_DEADLOCK FALSE
+"""
+REOPEN_CODE = dict(flush="open-after-wait", caps="TRUE", delim="always", idr="FALSE", store="FALSE", priv="TRUE")
+REOPEN_ALTERNATIVES = {          # each must be rejected by the model; the history that replays the counterexample on the code is named in Reopen.tla
+    "queue flushed before the wait for the old read loop": dict(flush="open-before-wait"),
+    "queue flushed by Close before the read loop has gone": dict(flush="close-before-wait"),
+    "queue never flushed": dict(flush="never"),
+    "capability list not started afresh": dict(caps="FALSE"),
+    "1.0 delimiter restored only after a Close by the user": dict(delim="after-close"),
+    "1.0 delimiter never restored": dict(delim="never"),
+    "message-ids restart while unfetched replies stay filed": dict(idr="TRUE"),
+    "cached privilege level kept": dict(priv="FALSE"),
+}
+
+
+def reopen_model(ctx, thorough):
+    """Reopen.tla: what one driver object carries from one session into the next; the code's choices hold, every alternative is rejected."""
+    def cfg(**kw):
+        c = dict(REOPEN_CODE, **kw)
+        return REOPEN % (4 if thorough else 3, c["flush"], c["caps"], c["delim"], c["idr"], c["store"], c["priv"])
+    r = ctx.tlc("Reopen", cfg="ro.cfg", files={"ro.cfg": cfg()}, workers=8, timeout=1200)
+    if r["violated"]:
+        ctx.violation("C07:model:Reopen:Clean", "Reopen.tla: with the resets the code makes an operation can observe something of an earlier session:\n" + r["stdout"][-2000:],
+                      {"kind": "model", "spec": "Reopen"})
+    rejected = {}
+    for name, kw in REOPEN_ALTERNATIVES.items():
+        ra = ctx.tlc("Reopen", cfg="ro.cfg", files={"ro.cfg": cfg(**kw)}, workers=4, timeout=600, expect_violation=True)
+        rejected[name] = bool(ra["violated"])
+        if not ra["violated"]:
+            raise ToolError("Reopen.tla accepts the alternative '%s': the invariant Clean has become vacuous" % name)
+    # a legitimate alternative (ids restart AND the store is emptied) must be accepted: Clean does not prescribe the code's way
+    rl = ctx.tlc("Reopen", cfg="ro.cfg", files={"ro.cfg": cfg(idr="TRUE", store="TRUE")}, workers=4, timeout=600)
+    if rl["violated"]:
+        raise ToolError("Reopen.tla rejects restarting the ids together with emptying the store: Clean demands more than 'nothing of an earlier session'")
+    ctx.notes["reopen_model"] = {"code_choices_clean": not r["violated"], "alternatives_rejected": rejected}
+
+
 def scenarios(ctx, thorough):
     points = hook_points()
     ps = pairs(points, thorough)
@@ -184,6 +230,7 @@ def run(ctx):
                     ctx.violation(r["sig"], r["detail"], rp)
                     return
         return
+    reopen_model(ctx, thorough)
     bad = model_matrix(ctx, thorough)
     for b in bad:
         ctx.violation("C07:model:%s:%s" % (b["property"], b["panic"] or "liveness"),
